@@ -136,12 +136,13 @@ def parseOp : List String → Option Op
   | _ => none
 
 /-- `setmid live k`: just before the id of the k-th message the client still owns (the next allocation collides with
-it); `setmid fresh _`: the start of the next block of 1000 ids above the generator and every id still owned -/
+it); `setmid edge k`: k + 1 allocations before the wrap-around; `setmid fresh _`: the start of the next block of 1000 ids above the generator and every id still owned -/
 def setMid (s : S) (how : String) (k : Nat) : Nat :=
   if how = "live" then
     match s.out[k % (max s.out.length 1)]? with
     | some m => if m.mid ≤ 1 then 65535 else m.mid - 1
     | none => s.lastMid
+  else if how = "edge" then 65534 - k      -- just before the wrap-around: the next allocations are 65535 - k, ..., 65535, 1
   else ((s.out.foldl (fun acc m => max acc m.mid) s.lastMid) / 1000 + 1) * 1000 % 65000
 
 def sessionStep (s : S) (ws : List String) : S × String :=
